@@ -59,7 +59,7 @@ def run_dw(case):
     if len(allfn) > 60:      # keep the per-point cost of the Python integrand bounded
         allfn = [allfn[i] for i in sorted(rng.choice(len(allfn), size=60, replace=False))]
     coefs = rng.normal(size=len(allfn))
-    g = drive.driver_function(dim, case["fseed"])
+    g = drive.fit_to_box(drive.driver_function(dim, case["fseed"]), case["a"], case["b"])
     comps = [g] + [(lambda x, fn=fn: oracles.basis_eval(fn, a, b, x)) for fn in sel]
     comps.append(lambda x: sum(c * oracles.basis_eval(fn, a, b, x) for c, fn in zip(coefs, allfn)))
     exact = [oracles.basis_integral(fn, a, b) for fn in sel] + [sum(c * oracles.basis_integral(fn, a, b) for c, fn in zip(coefs, allfn))]
@@ -131,7 +131,7 @@ def run_dw_modified(case):
     dim = case["dim"]
     a, b = np.array(case["a"]), np.array(case["b"])
     rng = np.random.default_rng(case["fseed"])
-    g = drive.driver_function(dim, case["fseed"])
+    g = drive.fit_to_box(drive.driver_function(dim, case["fseed"]), case["a"], case["b"])
     cs = rng.normal(size=(3, dim + 1))
     comps = [g] + [(lambda x, c=c: float(c[0] + np.dot(c[1:], x))) for c in cs]
     vol = float(np.prod(b - a))
@@ -205,7 +205,7 @@ def run_es(case):
     a, b = case["a"], case["b"]
     rng = np.random.default_rng(case["fseed"])
     cs = rng.normal(size=(2, 2 ** dim))
-    g = drive.driver_function(dim, case["fseed"])
+    g = drive.fit_to_box(drive.driver_function(dim, case["fseed"]), case["a"], case["b"])
     comps = [g] + [oracles.multilinear(c, dim) for c in cs]
     exact = np.array([oracles.multilinear_integral(c, a, b) for c in cs])
     m = max(1.0, max(abs(x) for x in a + b))
@@ -253,7 +253,7 @@ def run_cell(case):
     a, b = case["a"], case["b"]
     rng = np.random.default_rng(case["fseed"])
     cs = rng.normal(size=(2, 2 ** dim))
-    g = drive.driver_function(dim, case["fseed"])
+    g = drive.fit_to_box(drive.driver_function(dim, case["fseed"]), case["a"], case["b"])
     comps = [g] + [oracles.multilinear(c, dim) for c in cs]
     exact = np.array([oracles.multilinear_integral(c, a, b) for c in cs])
     m = max(1.0, max(abs(x) for x in a + b))
